@@ -697,7 +697,7 @@ class LeeYangZeroFlow(FlowInterface.FlowInterface):
             for pdg in poi_pdg:
                 if not isinstance(pdg, int):
                     raise TypeError("poi_pdg elements must be integers")
-        if flow_as_function_of not in ["pt", "rapidity", "pseudorapidity"]:
+        if flow_as_function_of not in ["pT", "rapidity", "pseudorapidity"]:
             raise ValueError(
                 "flow_as_function_of must be either 'pT', 'rapidity', 'pseudorapidity'"
             )
